@@ -38,6 +38,14 @@ CHECKS = {
         technique="gate walks with dataflow identity (stored value == verified value) on every bitswap.Block implementation + constant-table agreement between registry and CID encoders + atomic-registry who-may-call",
         text="Level 'other': decides for every type implementing bitswap.Block that its Container is stored only across ID equality with the decoded id and a successful verification (against the closure's root) of the very value stored, and by no other writer; that the hasher's digest is set only across UnmarshalFn success and is the CID's id; that CIDs are validated against the registered spec; that the shared registry is written atomically; that registry and CID() constants, id sizes and builders agree and codes are distinct; that the serving side converts only populated blocks. CID/ID bijection on values is not decided.",
         design="DESIGN.md §3 C10"),
+    "C12": dict(
+        technique="untrusted-input index/nil discipline (cross-sequence indexing and pointer dereference only behind rejecting length/nil tests, through validation-method summaries) + gate walks + dependency-protocol typestate (Validate before VerifyProof)",
+        text="Level 'other': decides on the proof-checking surface that an element access indexed by another sequence's loop variable is reachable only across a rejecting comparison of the two lengths, that pointers taken from client-supplied containers are dereferenced only across a rejecting nil test, that every verification argument gates success and no sub-verdict is ignored, that RowProof.VerifyProof is reached only after RowProof.Validate succeeded on the same proof, that blobstream proves only validated ranges, that Included answers true only across the comparison of the node's own proof with the supplied one, and (shared with C01) that share-range verification binds proof positions to the requested range by equality. Completeness and cryptographic soundness are not decided.",
+        design="DESIGN.md §3 C12"),
+    "C20": dict(
+        technique="barrier/gate walks over the subscription goroutine's SSA (one send per header, retry exit, overflow test) + close/send who-may-call + natural-loop enumeration with cancellation-source sibling agreement",
+        text="Level 'other', loop structure only: decides that every path from receiving a header back to waiting for the next crosses exactly one send whose fields derive from that header and from getAll for it, that the send is reached only across getAll success, that retrieval starts only on the not-full side of the len==cap test, that the channel is closed once by a defer in the only sender, and that every nested loop observes all cancellation sources of the outer select. Ordering under schedules and promptness in time are not decided.",
+        design="DESIGN.md §3 C20"),
     "C13": dict(
         technique="barrier/gate walks on SSA (result-or-own-cancellation, limit guards, done-check after mutation) + map read-before-delete ordering + dataflow provenance of retry attempts",
         text="Level 'other', four structural conditions: a worker returns without reporting only behind a test of its own context; every runWorker call is guarded by the configured concurrency predicates (shape checked) and created jobs are run; every state mutation that can complete catch-up is followed by checkDone before the coordinator blocks; retry attempts are read before cleanup, derive from the previous attempt and only increment. Liveness under fairness and statistics-vs-reality are not decided.",
